@@ -381,12 +381,17 @@ static void gen_case(Rng& rng, std::string const& name, int nops)
     if (what < 14)
     {
       if (rng.chance(30)) { wd.step += rng.pick<int64_t>({-5000, -300, 250, 4000}); } // the wall clock is stepped (NTP)
-      auto r = make_reads(rng, wd, last + 1000, static_cast<int>(rng.below(5)));
+      auto r = make_reads(rng, wd, last + 1000, iv > (int64_t{1} << 45) ? 0 : static_cast<int>(rng.below(5)));
       run_line(c, "idle " + reads_str(r));
       continue;
     }
     uint64_t tsc;
-    unsigned const how = static_cast<unsigned>(rng.below(100));
+    unsigned how = static_cast<unsigned>(rng.below(100));
+    // the interval doubles on every failed resync: after some 45 failures in a row it is centuries of ticks and the generated
+    // trigger points leave the range in which tsc differences and wall-clock values are meaningful (int64 nanoseconds) — such a
+    // history is outside what the stream is about; keep the time stamps near the base from then on and let the next resync succeed
+    bool const far = iv > (int64_t{1} << 45);
+    if (far) { how = 40; }
     if (how < 30) { tsc = b.base_tsc + static_cast<uint64_t>(iv) + rng.pick<uint64_t>({0, 1, 2, static_cast<uint64_t>(-1), 17}); } // trigger boundary
     else if (how < 55) { tsc = last + rng.below(2000); }                                 // increasing
     else if (how < 65) { tsc = last; }                                                   // repeated
@@ -394,7 +399,7 @@ static void gen_case(Rng& rng, std::string const& name, int nops)
     else if (how < 90) { tsc = b.base_tsc - rng.below(3000); }                           // before the base
     else { tsc = b.base_tsc + rng.below(static_cast<uint64_t>(iv > 0 ? iv : 1)); }
     if (rng.chance(8)) { wd.step += rng.pick<int64_t>({-2000, -100, 100, 2000}); }
-    auto r = make_reads(rng, wd, tsc + 200, static_cast<int>(rng.below(5)));
+    auto r = make_reads(rng, wd, tsc + 200, far ? 0 : static_cast<int>(rng.below(5)));
     run_line(c, "conv " + std::to_string(tsc) + " " + reads_str(r));
     if (static_cast<int64_t>(tsc - last) > 0) { last = tsc; }
   }
